@@ -1,3 +1,1083 @@
 (* Transport/TransportProofs.v — segmentation and reassembly. *)
 From Dnp3V Require Import Transport.Segment Link.CrcProofs Link.ParserProofs.
 Open Scope N_scope.
+
+(* ---------- 1. the transport header byte ---------------------------------------------------- *)
+
+Definition tp_eqb (a b : tp_header) : bool :=
+  Bool.eqb (t_fin a) (t_fin b) && Bool.eqb (t_fir a) (t_fir b) && (t_seq a =? t_seq b).
+
+Lemma tp_eqb_eq a b : tp_eqb a b = true -> a = b.
+Proof.
+  destruct a as [f1 r1 s1], b as [f2 r2 s2]. unfold tp_eqb. cbn [t_fin t_fir t_seq].
+  intro H. apply andb_prop in H. destruct H as [H Hs]. apply andb_prop in H. destruct H as [Hf Hr].
+  apply eqb_prop in Hf. apply eqb_prop in Hr. apply N.eqb_eq in Hs. subst. reflexivity.
+Qed.
+
+Lemma tp_to_from_check : forallb (fun b => tp_to_u8 (tp_from_u8 b) =? b) (nrange 256) = true.
+Proof. vm_compute. reflexivity. Qed.
+
+Lemma tp_to_from b : b < 256 -> tp_to_u8 (tp_from_u8 b) = b.
+Proof. intro H. apply N.eqb_eq. exact (forallb_nrange _ 256 tp_to_from_check b H). Qed.
+
+Lemma tp_from_to_check :
+  forallb (fun s =>
+    tp_eqb (tp_from_u8 (tp_to_u8 {| t_fin := false; t_fir := false; t_seq := s |}))
+           {| t_fin := false; t_fir := false; t_seq := s |} &&
+    tp_eqb (tp_from_u8 (tp_to_u8 {| t_fin := false; t_fir := true; t_seq := s |}))
+           {| t_fin := false; t_fir := true; t_seq := s |} &&
+    tp_eqb (tp_from_u8 (tp_to_u8 {| t_fin := true; t_fir := false; t_seq := s |}))
+           {| t_fin := true; t_fir := false; t_seq := s |} &&
+    tp_eqb (tp_from_u8 (tp_to_u8 {| t_fin := true; t_fir := true; t_seq := s |}))
+           {| t_fin := true; t_fir := true; t_seq := s |} &&
+    (tp_to_u8 {| t_fin := false; t_fir := false; t_seq := s |} <? 256) &&
+    (tp_to_u8 {| t_fin := false; t_fir := true; t_seq := s |} <? 256) &&
+    (tp_to_u8 {| t_fin := true; t_fir := false; t_seq := s |} <? 256) &&
+    (tp_to_u8 {| t_fin := true; t_fir := true; t_seq := s |} <? 256))
+  (nrange 64) = true.
+Proof. vm_compute. reflexivity. Qed.
+
+Lemma tp_from_to h : t_seq h < 64 -> tp_from_u8 (tp_to_u8 h) = h.
+Proof.
+  destruct h as [fin fir s]. cbn [t_seq]. intro H.
+  pose proof (forallb_nrange _ 64 tp_from_to_check s H) as C. cbv beta in C.
+  do 7 (apply andb_prop in C; destruct C as [C ?]).
+  destruct fin, fir; apply tp_eqb_eq; assumption.
+Qed.
+
+Lemma tp_to_u8_byte h : t_seq h < 64 -> tp_to_u8 h < 256.
+Proof.
+  destruct h as [fin fir s]. cbn [t_seq]. intro H.
+  pose proof (forallb_nrange _ 64 tp_from_to_check s H) as C. cbv beta in C.
+  do 7 (apply andb_prop in C; destruct C as [C ?]).
+  destruct fin, fir; apply N.ltb_lt; assumption.
+Qed.
+
+Lemma tp_from_u8_seq b : t_seq (tp_from_u8 b) < 64.
+Proof.
+  unfold tp_from_u8. cbn [t_seq]. change c_tp_seq_max with (N.ones 6).
+  rewrite N.land_ones. change (2 ^ 6) with 64. apply N.mod_lt. discriminate.
+Qed.
+
+Theorem tp_header_round_trip :
+  (forall b, b < 256 -> tp_to_u8 (tp_from_u8 b) = b) /\
+  (forall fin fir s, s < 64 ->
+     tp_from_u8 (tp_to_u8 {| t_fin := fin; t_fir := fir; t_seq := s |})
+     = {| t_fin := fin; t_fir := fir; t_seq := s |}).
+Proof. split; [exact tp_to_from|]. intros fin fir s H. apply tp_from_to. exact H. Qed.
+
+Lemma seq_next_mod s : s < 64 -> seq_next s = (s + 1) mod 64.
+Proof.
+  intro H. unfold seq_next. change c_tp_seq_max with 63.
+  destruct (s =? 63) eqn:E; [apply N.eqb_eq in E; subst; reflexivity|].
+  apply N.eqb_neq in E. rewrite N.mod_small by lia. reflexivity.
+Qed.
+
+Lemma seq_next_bound s : s < 64 -> seq_next s < 64.
+Proof. intro H. rewrite seq_next_mod by assumption. apply N.mod_lt. discriminate. Qed.
+
+Lemma seq_iter k s : s < 64 -> Nat.iter k seq_next s = (s + N.of_nat k) mod 64.
+Proof.
+  intro H. induction k as [|k IH].
+  - change (Nat.iter 0 seq_next s) with s. rewrite N.add_0_r, N.mod_small by assumption. reflexivity.
+  - change (Nat.iter (S k) seq_next s) with (seq_next (Nat.iter k seq_next s)). rewrite IH. rewrite seq_next_mod by (apply N.mod_lt; discriminate).
+    rewrite N.add_mod_idemp_l by discriminate. f_equal. lia.
+Qed.
+
+Lemma seq_iter_bound k s : s < 64 -> Nat.iter k seq_next s < 64.
+Proof. intro H. rewrite seq_iter by assumption. apply N.mod_lt. discriminate. Qed.
+
+(* period exactly 64 *)
+Theorem seq_next_cycle s : s < 64 ->
+  seq_next s < 64 /\ Nat.iter 64 seq_next s = s /\
+  forall k, (0 < k < 64)%nat -> Nat.iter k seq_next s <> s.
+Proof.
+  intro H. split; [apply seq_next_bound; assumption|]. split.
+  - rewrite seq_iter by assumption. change (N.of_nat 64) with 64. lia.
+  - intros k Hk. rewrite seq_iter by assumption. lia.
+Qed.
+
+(* ---------- 2. segmentation ------------------------------------------------------------------- *)
+
+Definition seg_hdr_of (seq : N) (first : bool) (rest : list (list N)) : tp_header :=
+  {| t_fin := match rest with [] => true | _ => false end; t_fir := first; t_seq := seq |}.
+
+Fixpoint segs_of (seq : N) (first : bool) (cs : list (list N)) : list (tp_header * list N) :=
+  match cs with
+  | [] => []
+  | c :: rest => (seg_hdr_of seq first rest, c) :: segs_of (seq_next seq) false rest
+  end.
+
+Definition seg_frame (cfg : wcfg) (dest : N) (s : tp_header * list N) : option (list N) :=
+  format_data_frame (data_header cfg dest) (tp_to_u8 (fst s)) (snd s).
+
+Lemma iter_shift n s : Nat.iter (S n) seq_next s = Nat.iter n seq_next (seq_next s).
+Proof.
+  induction n as [|n IH]; [reflexivity|].
+  change (Nat.iter (S (S n)) seq_next s) with (seq_next (Nat.iter (S n) seq_next s)).
+  rewrite IH. reflexivity.
+Qed.
+
+Lemma write_chunks_segs cfg dest : forall cs seq first,
+  write_chunks cfg dest seq first cs =
+  (map (fun s => match seg_frame cfg dest s with Some f => f | None => [] end) (segs_of seq first cs),
+   Nat.iter (length cs) seq_next seq).
+Proof.
+  induction cs as [|c rest IH]; intros seq first; [reflexivity|].
+  cbn [write_chunks segs_of map length]. rewrite IH. unfold seg_frame at 1, seg_hdr_of. cbn [fst snd].
+  f_equal. symmetry. apply iter_shift.
+Qed.
+
+Lemma seg_frame_some cfg dest s : (length (snd s) <= 249)%nat ->
+  seg_frame cfg dest s =
+  Some (format_frame (data_header cfg dest) (tp_to_u8 (fst s) :: snd s)).
+Proof.
+  intro H. unfold seg_frame, format_data_frame. change (N.to_nat c_max_app_bytes_per_frame) with 249%nat.
+  replace (249 <? length (snd s))%nat with false by (symmetry; apply Nat.ltb_ge; lia).
+  unfold format_frame. cbn [length]. do 3 f_equal. lia.
+Qed.
+
+Lemma segs_of_payloads : forall cs seq first, map snd (segs_of seq first cs) = cs.
+Proof. induction cs as [|c rest IH]; intros; [reflexivity|]. cbn [segs_of map snd]. rewrite IH. reflexivity. Qed.
+
+Lemma segs_of_length cs seq first : length (segs_of seq first cs) = length cs.
+Proof. rewrite <- (segs_of_payloads cs seq first) at 2. rewrite map_length. reflexivity. Qed.
+
+Lemma segs_of_seq_bound : forall cs seq first, seq < 64 ->
+  Forall (fun s => t_seq (fst s) < 64) (segs_of seq first cs).
+Proof.
+  induction cs as [|c rest IH]; intros seq first H; [constructor|].
+  cbn [segs_of]. constructor; [exact H|]. apply IH. apply seq_next_bound. exact H.
+Qed.
+
+Lemma chunks_length_le k l : (0 < k)%nat -> Forall (fun c => (length c <= k)%nat) (chunks k l).
+Proof.
+  intro Hk. remember (length l) as n eqn:Hn. assert (Hl : (length l <= n)%nat) by lia. clear Hn.
+  revert l Hl. induction n as [|n IH]; intros l Hl.
+  - destruct l; [constructor|cbn in Hl; lia].
+  - destruct l as [|x l]; [constructor|].
+    rewrite chunks_cons by (assumption || discriminate). constructor.
+    + rewrite firstn_length. lia.
+    + apply IH. rewrite skipn_length. cbn [length] in *. lia.
+Qed.
+
+(* the frames of one write are the link frames of the segments, all well formed *)
+Theorem write_fragment_frames cfg dest seq fragment :
+  let segs := segs_of seq true (chunks 249 fragment) in
+  write_fragment cfg dest seq fragment =
+    (map (fun s => format_frame (data_header cfg dest) (tp_to_u8 (fst s) :: snd s)) segs,
+     Nat.iter (length segs) seq_next seq) /\
+  map (seg_frame cfg dest) segs =
+    map (fun s => Some (format_frame (data_header cfg dest) (tp_to_u8 (fst s) :: snd s))) segs /\
+  concat (map snd segs) = fragment.
+Proof.
+  cbv zeta. unfold write_fragment. change (N.to_nat c_max_app_bytes_per_frame) with 249%nat.
+  rewrite write_chunks_segs.
+  pose proof (chunks_length_le 249 fragment ltac:(lia)) as Hc.
+  assert (Hs : Forall (fun s : tp_header * list N => (length (snd s) <= 249)%nat)
+                      (segs_of seq true (chunks 249 fragment))).
+  { rewrite <- (segs_of_payloads (chunks 249 fragment) seq true) in Hc.
+    rewrite Forall_map in Hc. exact Hc. }
+  split; [|split].
+  - f_equal.
+    + apply map_ext_in. intros s Hin. rewrite Forall_forall in Hs.
+      rewrite seg_frame_some by (apply Hs; exact Hin). reflexivity.
+    + rewrite segs_of_length. reflexivity.
+  - apply map_ext_in. intros s Hin. rewrite Forall_forall in Hs. apply seg_frame_some, Hs, Hin.
+  - rewrite segs_of_payloads. apply (chunks_concat 249 ltac:(lia) _ fragment (le_n _)).
+Qed.
+
+(* ---------- reassembly of what was segmented, from ANY assembler state ------------------------- *)
+
+Definition feed_segs (a : assembler) (info : frame_info) (segs : list (tp_header * list N)) : assembler :=
+  fold_left (fun a s => assemble a info (fst s) (snd s)) segs a.
+
+Lemma info_eqb_refl i : info_eqb i i = true.
+Proof.
+  unfold info_eqb. rewrite N.eqb_refl.
+  destruct (fi_broadcast i) as [[| |]|], (fi_type i); reflexivity.
+Qed.
+
+Definition completed (a : assembler) (info : frame_info) (buf : list N) : assembler :=
+  {| a_state := AComplete {| fg_id := a_frame_id a; fg_source := fi_source info;
+                             fg_broadcast := fi_broadcast info |} buf;
+     a_frame_id := (a_frame_id a + 1) mod 4294967296;
+     a_cap := a_cap a |}.
+
+Lemma append_fits a info h acc d : (length (acc ++ d) <= a_cap a)%nat ->
+  append a info h acc d = if t_fin h then completed a info (acc ++ d) else with_state a (ARunning info h (acc ++ d)).
+Proof.
+  intro H. unfold append.
+  replace (a_cap a <? length (acc ++ d))%nat with false by (symmetry; apply Nat.ltb_ge; exact H).
+  reflexivity.
+Qed.
+
+Lemma with_state_idem a s s' : with_state (with_state a s) s' = with_state a s'.
+Proof. reflexivity. Qed.
+
+Lemma reassemble_tail info : fi_broadcast info = None ->
+  forall cs a ph acc seq,
+  cs <> [] ->
+  a_state a = ARunning info ph acc -> seq = seq_next (t_seq ph) ->
+  (length (acc ++ concat cs) <= a_cap a)%nat ->
+  feed_segs a info (segs_of seq false cs) = completed a info (acc ++ concat cs).
+Proof.
+  intros Hb. induction cs as [|c rest IH]; intros a ph acc seq Hne Hst Hseq Hlen; [congruence|].
+  cbn [segs_of feed_segs fold_left fst snd]. fold (feed_segs (assemble a info (seg_hdr_of seq false rest) c) info
+                                                  (segs_of (seq_next seq) false rest)).
+  assert (Hstep : assemble a info (seg_hdr_of seq false rest) c
+                  = append a info (seg_hdr_of seq false rest) acc c).
+  { unfold assemble. cbn [seg_hdr_of t_fir t_seq]. rewrite Hb, Hst, <- Hseq, N.eqb_refl, info_eqb_refl.
+    reflexivity. }
+  rewrite Hstep. cbn [concat] in Hlen. rewrite app_assoc in Hlen.
+  rewrite append_fits by (rewrite app_length in Hlen; lia).
+  destruct rest as [|c2 rest].
+  - cbn [seg_hdr_of t_fin segs_of feed_segs fold_left concat]. rewrite app_nil_r. reflexivity.
+  - cbn [seg_hdr_of t_fin].
+    rewrite (IH (with_state a (ARunning info (seg_hdr_of seq false (c2 :: rest)) (acc ++ c)))
+                (seg_hdr_of seq false (c2 :: rest)) (acc ++ c) (seq_next seq)).
+    + cbn [concat]. rewrite <- app_assoc. reflexivity.
+    + discriminate.
+    + reflexivity.
+    + reflexivity.
+    + cbn [with_state a_cap]. exact Hlen.
+Qed.
+
+Lemma reassemble_chunks info : fi_broadcast info = None ->
+  forall cs a seq, cs <> [] -> (length (concat cs) <= a_cap a)%nat ->
+  feed_segs a info (segs_of seq true cs) = completed a info (concat cs).
+Proof.
+  intros Hb cs a seq Hne Hlen. destruct cs as [|c rest]; [congruence|].
+  cbn [segs_of feed_segs fold_left fst snd].
+  fold (feed_segs (assemble a info (seg_hdr_of seq true rest) c) info (segs_of (seq_next seq) false rest)).
+  assert (Hstep : assemble a info (seg_hdr_of seq true rest) c
+                  = append (with_state a AEmpty) info (seg_hdr_of seq true rest) [] c).
+  { unfold assemble. cbn [seg_hdr_of t_fir]. rewrite Hb. reflexivity. }
+  rewrite Hstep. cbn [concat] in Hlen.
+  rewrite append_fits by (cbn [app with_state a_cap]; rewrite app_length in Hlen; lia).
+  cbn [app]. destruct rest as [|c2 rest].
+  - cbn [seg_hdr_of t_fin segs_of feed_segs fold_left concat]. rewrite app_nil_r. reflexivity.
+  - cbn [seg_hdr_of t_fin]. rewrite with_state_idem.
+    rewrite (reassemble_tail info Hb (c2 :: rest) _ (seg_hdr_of seq true (c2 :: rest)) c (seq_next seq)).
+    + reflexivity.
+    + discriminate.
+    + reflexivity.
+    + reflexivity.
+    + cbn [with_state a_cap]. exact Hlen.
+Qed.
+
+Lemma chunks_nonempty k l : (0 < k)%nat -> l <> [] -> chunks k l <> [].
+Proof. intros Hk Hl. rewrite chunks_cons by assumption. discriminate. Qed.
+
+Theorem segment_reassemble : forall a info seq0 fragment,
+  fi_broadcast info = None -> fragment <> [] -> (length fragment <= a_cap a)%nat ->
+  feed_segs a info (segs_of seq0 true (chunks 249 fragment)) =
+  {| a_state := AComplete {| fg_id := a_frame_id a; fg_source := fi_source info; fg_broadcast := None |} fragment;
+     a_frame_id := (a_frame_id a + 1) mod 4294967296;
+     a_cap := a_cap a |}.
+Proof.
+  intros a info seq0 fragment Hb Hne Hlen.
+  pose proof (chunks_concat 249 ltac:(lia) _ fragment (le_n _)) as Hcat.
+  rewrite reassemble_chunks.
+  - unfold completed. rewrite Hcat, Hb. reflexivity.
+  - exact Hb.
+  - apply chunks_nonempty; [lia|exact Hne].
+  - rewrite Hcat. exact Hlen.
+Qed.
+
+(* ---------- the assembler step by step ------------------------------------------------------- *)
+
+(* ---------- one step of the assembler, classified ------------------------------------------- *)
+
+Definition seg := (frame_info * tp_header * list N)%type.
+Definition seg_info (s : seg) : frame_info := fst (fst s).
+Definition seg_hdr (s : seg) : tp_header := snd (fst s).
+Definition seg_data (s : seg) : list N := snd s.
+
+(* a segment the assembler does not look at: a broadcast frame without FIR *)
+Definition is_ignored (s : seg) : bool :=
+  match fi_broadcast (seg_info s) with Some _ => negb (t_fir (seg_hdr s)) | None => false end.
+
+Inductive astep (a : assembler) (i : frame_info) (h : tp_header) (d : list N) (a' : assembler) : Prop :=
+| st_reset : a_state a' = AEmpty -> a_frame_id a' = a_frame_id a -> a_cap a' = a_cap a -> astep a i h d a'
+| st_ignore : a' = a -> is_ignored (i, h, d) = true -> astep a i h d a'
+| st_start : t_fir h = true -> t_fin h = false -> fi_broadcast i = None ->
+    a' = with_state a (ARunning i h d) -> (length d <= a_cap a)%nat -> astep a i h d a'
+| st_cont pi ph acc : a_state a = ARunning pi ph acc -> t_fir h = false -> t_fin h = false ->
+    fi_broadcast i = None -> t_seq h = seq_next (t_seq ph) -> info_eqb i pi = true ->
+    a' = with_state a (ARunning i h (acc ++ d)) -> (length (acc ++ d) <= a_cap a)%nat -> astep a i h d a'
+| st_single : t_fir h = true -> t_fin h = true ->
+    a' = completed a i d -> (length d <= a_cap a)%nat -> astep a i h d a'
+| st_final pi ph acc : a_state a = ARunning pi ph acc -> t_fir h = false -> t_fin h = true ->
+    fi_broadcast i = None -> t_seq h = seq_next (t_seq ph) -> info_eqb i pi = true ->
+    a' = completed a i (acc ++ d) -> (length (acc ++ d) <= a_cap a)%nat -> astep a i h d a'.
+
+Lemma append_cases a i h acc d :
+  (append a i h acc d = with_state a AEmpty) \/
+  ((length (acc ++ d) <= a_cap a)%nat /\
+   append a i h acc d = if t_fin h then completed a i (acc ++ d) else with_state a (ARunning i h (acc ++ d))).
+Proof.
+  destruct (a_cap a <? length (acc ++ d))%nat eqn:E.
+  - left. unfold append. rewrite E. reflexivity.
+  - right. apply Nat.ltb_ge in E. split; [exact E|]. apply append_fits. exact E.
+Qed.
+
+Lemma assemble_spec a i h d : is_complete a = false -> astep a i h d (assemble a i h d).
+Proof.
+  intro Hnc. unfold assemble.
+  destruct (t_fir h) eqn:Efir.
+  - (* FIR: the state is cleared first *)
+    destruct (fi_broadcast i) eqn:Eb.
+    + cbn [andb]. destruct (t_fin h) eqn:Efin.
+      * destruct (append_cases (with_state a AEmpty) i h [] d) as [E|[Hlen E]]; rewrite E.
+        -- apply st_reset; reflexivity.
+        -- rewrite Efin. cbn [app with_state a_cap] in *. apply st_single; auto.
+      * apply st_reset; reflexivity.
+    + cbn [with_state a_state negb].
+      destruct (append_cases (with_state a AEmpty) i h [] d) as [E|[Hlen E]]; rewrite E.
+      * apply st_reset; reflexivity.
+      * cbn [app with_state a_cap] in *. destruct (t_fin h) eqn:Efin.
+        -- apply st_single; auto.
+        -- apply st_start; auto.
+  - destruct (fi_broadcast i) eqn:Eb.
+    + cbn [andb]. apply st_ignore; [reflexivity|]. unfold is_ignored, seg_info, seg_hdr. cbn [fst snd].
+      rewrite Eb, Efir. reflexivity.
+    + destruct (a_state a) as [|pi ph acc|fi0 buf0] eqn:Est.
+      * cbn [negb]. apply st_reset; auto.
+      * destruct (t_seq h =? seq_next (t_seq ph)) eqn:Eseq; cbn [negb]; [|apply st_reset; reflexivity].
+        apply N.eqb_eq in Eseq.
+        destruct (info_eqb i pi) eqn:Einfo; cbn [negb]; [|apply st_reset; reflexivity].
+        destruct (append_cases a i h acc d) as [E|[Hlen E]]; rewrite E.
+        -- apply st_reset; reflexivity.
+        -- destruct (t_fin h) eqn:Efin.
+           ++ eapply st_final; eauto.
+           ++ eapply st_cont; eauto.
+      * unfold is_complete in Hnc. rewrite Est in Hnc. discriminate.
+Qed.
+
+(* ---------- 3. what a delivered fragment is made of ------------------------------------------ *)
+
+(* the data segments the transport reader takes from the link layer's output, in order (the reader
+   stops at the first link error) *)
+Fixpoint data_segments (obs : list lobs) : list seg :=
+  match obs with
+  | [] => []
+  | LTx _ :: rest => data_segments rest
+  | LInfo i payload :: rest =>
+      match fi_type i, payload with
+      | FData, t :: d => (i, tp_from_u8 t, d) :: data_segments rest
+      | _, _ => data_segments rest
+      end
+  | _ => []
+  end.
+
+(* l continues and completes a run whose latest segment is (pi, ph): no FIR, consecutive sequence
+   numbers, the same frame info, FIN exactly on the last one *)
+Fixpoint cont (pi : frame_info) (ph : tp_header) (l : list seg) : Prop :=
+  match l with
+  | [] => False
+  | s :: l' =>
+      t_fir (seg_hdr s) = false /\ t_seq (seg_hdr s) = seq_next (t_seq ph) /\
+      info_eqb (seg_info s) pi = true /\
+      if t_fin (seg_hdr s) then l' = [] else cont (seg_info s) (seg_hdr s) l'
+  end.
+
+Definition complete_run (run : list seg) : Prop :=
+  match run with
+  | [] => False
+  | s :: l' =>
+      t_fir (seg_hdr s) = true /\
+      if t_fin (seg_hdr s) then l' = [] else cont (seg_info s) (seg_hdr s) l'
+  end.
+
+(* r is embedded in m, the elements of m that are skipped are ignored segments lying strictly
+   inside (before the last element of r) *)
+Inductive cembed : list seg -> list seg -> Prop :=
+| ce_nil : cembed [] []
+| ce_take s r m : cembed r m -> cembed (s :: r) (s :: m)
+| ce_skip y r m : is_ignored y = true -> r <> [] -> cembed r m -> cembed r (y :: m).
+
+Definition embed (run mid : list seg) : Prop :=
+  exists s r m, run = s :: r /\ mid = s :: m /\ cembed r m.
+
+Inductive sublist {A} : list A -> list A -> Prop :=
+| sl_nil : sublist [] []
+| sl_take x r m : sublist r m -> sublist (x :: r) (x :: m)
+| sl_skip y r m : sublist r m -> sublist r (y :: m).
+
+Definition frag_of_run (cap : nat) (run : list seg) (fi : fragment_info) (buf : list N) : Prop :=
+  complete_run run /\
+  buf = concat (map seg_data run) /\ (length buf <= cap)%nat /\
+  exists i, Forall (fun s => seg_info s = i) run /\
+            fg_source fi = fi_source i /\ fg_broadcast fi = fi_broadcast i /\
+            (fi_broadcast i <> None -> length run = 1%nat).
+
+Definition fresh (cap : nat) (segs : list seg) (fi : fragment_info) (buf : list N) : Prop :=
+  exists pre mid post run, segs = pre ++ mid ++ post /\ embed run mid /\ frag_of_run cap run fi buf.
+
+Definition continues (cap : nat) (pi : frame_info) (ph : tp_header) (acc : list N)
+  (segs : list seg) (fi : fragment_info) (buf : list N) : Prop :=
+  exists r mid post, segs = mid ++ post /\ cembed r mid /\ cont pi ph r /\
+    buf = acc ++ concat (map seg_data r) /\ (length buf <= cap)%nat /\
+    fg_source fi = fi_source pi /\ fg_broadcast fi = fi_broadcast pi.
+
+Lemma info_eqb_eq a b : info_eqb a b = true -> a = b.
+Proof.
+  destruct a as [s1 b1 t1], b as [s2 b2 t2]. unfold info_eqb. cbn [fi_source fi_broadcast fi_type].
+  intro H. apply andb_prop in H. destruct H as [H Ht]. apply andb_prop in H. destruct H as [Hs Hb].
+  apply N.eqb_eq in Hs. subst.
+  assert (b1 = b2) by (destruct b1 as [[| |]|], b2 as [[| |]|]; cbn in Hb; congruence).
+  assert (t1 = t2) by (destruct t1, t2; cbn in Ht; congruence).
+  subst. reflexivity.
+Qed.
+
+Lemma cont_infos : forall r pi ph, cont pi ph r -> Forall (fun s => seg_info s = pi) r.
+Proof.
+  induction r as [|s r IH]; intros pi ph H; [constructor|].
+  cbn [cont] in H. destruct H as (_ & _ & Hi & Hrest). apply info_eqb_eq in Hi.
+  constructor; [exact Hi|]. destruct (t_fin (seg_hdr s)).
+  - subst r. constructor.
+  - rewrite <- Hi. eapply IH. exact Hrest.
+Qed.
+
+Lemma cont_nonempty pi ph r : cont pi ph r -> r <> [].
+Proof. destruct r; [intros []|discriminate]. Qed.
+
+Lemma fresh_cons cap s segs fi buf : fresh cap segs fi buf -> fresh cap (s :: segs) fi buf.
+Proof.
+  intros (pre & mid & post & run & E & He & Hf). exists (s :: pre), mid, post, run.
+  split; [rewrite E; reflexivity|]. split; assumption.
+Qed.
+
+Lemma is_complete_with_state a s : is_complete (with_state a s) = match s with AComplete _ _ => true | _ => false end.
+Proof. reflexivity. Qed.
+
+Lemma treader_gen cap : forall obs a, a_cap a = cap -> is_complete a = false ->
+  forall fi buf, In (TFrag fi buf) (treader_obs a obs) ->
+  (exists pi ph acc, a_state a = ARunning pi ph acc /\ fi_broadcast pi = None /\
+                     continues cap pi ph acc (data_segments obs) fi buf)
+  \/ fresh cap (data_segments obs) fi buf.
+Proof.
+  induction obs as [|o obs IH]; intros a Hcap Hnc fi buf Hin; [destruct Hin|].
+  destruct o as [b|i payload|e| |].
+  - cbn [treader_obs data_segments] in *. destruct Hin as [Hin|Hin]; [discriminate|]. eauto.
+  - cbn [treader_obs data_segments] in *.
+    destruct (fi_type i) eqn:Et.
+    2,3: destruct Hin as [Hin|Hin]; [discriminate|];
+         destruct payload; eauto.
+    destruct payload as [|t d]; [eauto|].
+    set (h := tp_from_u8 t) in *. set (s := (i, h, d) : seg).
+    pose proof (assemble_spec a i h d Hnc) as Hstep.
+    remember (assemble a i h d) as a' eqn:Ea'. clear Ea'.
+    destruct Hstep as [Hst Hid Hc|Heq Hign|Hfir Hfin Hb Heq Hlen
+                      |pi ph acc Hst Hfir Hfin Hb Hseq Hinfo Heq Hlen
+                      |Hfir Hfin Heq Hlen|pi ph acc Hst Hfir Hfin Hb Hseq Hinfo Heq Hlen].
+    + (* reset *)
+      rewrite Hst in Hin.
+      destruct (IH a' ltac:(congruence) ltac:(unfold is_complete; rewrite Hst; reflexivity) fi buf Hin)
+        as [(pi & ph & acc & Hst' & _)|Hf]; [congruence|].
+      right. apply fresh_cons. exact Hf.
+    + (* ignored *)
+      subst a'.
+      assert (Hin' : In (TFrag fi buf) (treader_obs a obs)).
+      { unfold is_complete in Hnc. destruct (a_state a); try discriminate; exact Hin. }
+      destruct (IH a Hcap Hnc fi buf Hin') as [(pi & ph & acc & Hst' & Hbp & Hc)|Hf].
+      * left. exists pi, ph, acc. split; [exact Hst'|]. split; [exact Hbp|].
+        destruct Hc as (r & mid & post & E & Hce & Hcont & Hrest).
+        exists r, (s :: mid), post. split; [rewrite E; reflexivity|]. split; [|split; assumption].
+        apply ce_skip; [exact Hign|eapply cont_nonempty; eassumption|exact Hce].
+      * right. apply fresh_cons. exact Hf.
+    + (* start of a run *)
+      subst a'. cbn [with_state a_state] in Hin.
+      destruct (IH (with_state a (ARunning i h d)) Hcap eq_refl fi buf Hin)
+        as [(pi & ph & acc & Hst' & Hbp & Hc)|Hf].
+      * cbn [with_state a_state] in Hst'. injection Hst' as <- <- <-.
+        destruct Hc as (r & mid & post & E & Hce & Hcont & Hbuf & Hl & Hsrc & Hbc).
+        right. exists [], (s :: mid), post, (s :: r).
+        split; [rewrite E; reflexivity|]. split; [exists s, r, mid; auto|].
+        split; [|split; [exact Hbuf|split; [exact Hl|]]].
+        -- cbn [complete_run]. unfold s at 1 2 3. unfold seg_hdr, seg_info. cbn [fst snd].
+           rewrite Hfin. split; [exact Hfir|exact Hcont].
+        -- exists i. split; [constructor; [reflexivity|eapply cont_infos; eassumption]|].
+           split; [exact Hsrc|]. split; [exact Hbc|]. intro Hx. congruence.
+      * right. apply fresh_cons. exact Hf.
+    + (* continuation *)
+      subst a'. cbn [with_state a_state] in Hin.
+      apply info_eqb_eq in Hinfo. subst pi.
+      destruct (IH (with_state a (ARunning i h (acc ++ d))) Hcap eq_refl fi buf Hin)
+        as [(pi' & ph' & acc' & Hst' & Hbp & Hc)|Hf].
+      * cbn [with_state a_state] in Hst'. injection Hst' as <- <- <-.
+        destruct Hc as (r & mid & post & E & Hce & Hcont & Hbuf & Hl & Hsrc & Hbc).
+        left. exists i, ph, acc. split; [exact Hst|]. split; [exact Hb|].
+        exists (s :: r), (s :: mid), post. split; [rewrite E; reflexivity|].
+        split; [apply ce_take; exact Hce|]. split; [|split; [|auto]].
+        -- cbn [cont]. unfold s at 1 2 3 4. unfold seg_hdr, seg_info. cbn [fst snd].
+           rewrite Hfin. split; [exact Hfir|]. split; [exact Hseq|]. split; [apply info_eqb_refl|exact Hcont].
+        -- rewrite Hbuf. cbn [map concat]. unfold s at 1. unfold seg_data. cbn [snd].
+           rewrite app_assoc. reflexivity.
+      * right. apply fresh_cons. exact Hf.
+    + (* a single-segment fragment *)
+      subst a'. cbn [completed a_state] in Hin. destruct Hin as [Hin|Hin].
+      * injection Hin as <- <-. right. exists [], [s], (data_segments obs), [s].
+        split; [reflexivity|]. split; [exists s, [], []; repeat split; constructor|].
+        split; [|split; [|split]].
+        -- cbn [complete_run]. unfold s. unfold seg_hdr. cbn [fst snd]. rewrite Hfin. auto.
+        -- cbn [map concat]. rewrite app_nil_r. reflexivity.
+        -- congruence.
+        -- exists i. split; [repeat constructor|]. cbn [fg_source fg_broadcast]. auto.
+      * destruct (IH (with_state (completed a i d) AEmpty) Hcap eq_refl fi buf Hin)
+          as [(pi & ph & acc & Hst' & _)|Hf]; [discriminate|].
+        right. apply fresh_cons. exact Hf.
+    + (* the last segment of a run *)
+      subst a'. cbn [completed a_state] in Hin.
+      apply info_eqb_eq in Hinfo. subst pi. destruct Hin as [Hin|Hin].
+      * injection Hin as <- <-. left. exists i, ph, acc. split; [exact Hst|]. split; [exact Hb|].
+        exists [s], [s], (data_segments obs). split; [reflexivity|].
+        split; [apply ce_take, ce_nil|]. split; [|split; [|split; [congruence|]]].
+        -- cbn [cont]. unfold s. unfold seg_hdr, seg_info. cbn [fst snd]. rewrite Hfin.
+           split; [exact Hfir|]. split; [exact Hseq|]. split; [apply info_eqb_refl|reflexivity].
+        -- cbn [map concat]. rewrite app_nil_r. reflexivity.
+        -- cbn [fg_source fg_broadcast]. auto.
+      * destruct (IH (with_state (completed a i (acc ++ d)) AEmpty) Hcap eq_refl fi buf Hin)
+          as [(pi & ph' & acc' & Hst' & _)|Hf]; [discriminate|].
+        right. apply fresh_cons. exact Hf.
+  - destruct Hin as [Hin|[]]; discriminate.
+  - destruct Hin as [Hin|[]]; discriminate.
+  - destruct Hin as [Hin|[]]; discriminate.
+Qed.
+
+Lemma cembed_sublist r m : cembed r m -> sublist r m.
+Proof. induction 1; constructor; assumption. Qed.
+
+Lemma sublist_app_l {A} (pre : list A) r m : sublist r m -> sublist r (pre ++ m).
+Proof. intro H. induction pre as [|x pre IH]; [exact H|]. cbn [app]. apply sl_skip. exact IH. Qed.
+
+Lemma sublist_app_r {A} (post : list A) r m : sublist r m -> sublist r (m ++ post).
+Proof.
+  induction 1 as [|x r m H IH|y r m H IH]; cbn [app].
+  - induction post as [|x post IH]; constructor. exact IH.
+  - apply sl_take. exact IH.
+  - apply sl_skip. exact IH.
+Qed.
+
+Lemma embed_sublist run pre mid post : embed run mid -> sublist run (pre ++ mid ++ post).
+Proof.
+  intros (s & r & m & -> & -> & H). apply sublist_app_l, sublist_app_r, sl_take, cembed_sublist, H.
+Qed.
+
+(* Every fragment the transport reader delivers is the concatenation of a well-formed complete run
+   of segments that occurs in the input in this order.  The run lies inside a contiguous window
+   `mid` of the data segments that starts with the run's FIR segment and ends with its FIN segment;
+   the only elements of the window that are not part of the run are segments the assembler ignores
+   without changing its state: broadcast frames whose transport header has no FIR (is_ignored). *)
+Theorem delivered_is_run_window : forall cap obs fi buf,
+  In (TFrag fi buf) (treader_obs (assembler_init cap) obs) ->
+  exists pre mid post run,
+    data_segments obs = pre ++ mid ++ post /\ embed run mid /\
+    complete_run run /\
+    buf = concat (map seg_data run) /\ (length buf <= cap)%nat /\
+    exists i, Forall (fun s => seg_info s = i) run /\
+              fg_source fi = fi_source i /\ fg_broadcast fi = fi_broadcast i /\
+              (fi_broadcast i <> None -> length run = 1%nat).
+Proof.
+  intros cap obs fi buf Hin.
+  destruct (treader_gen cap obs (assembler_init cap) eq_refl eq_refl fi buf Hin)
+    as [(pi & ph & acc & Hst & _)|Hf]; [discriminate|exact Hf].
+Qed.
+
+Theorem delivered_is_run : forall cap obs fi buf,
+  In (TFrag fi buf) (treader_obs (assembler_init cap) obs) ->
+  exists run,
+    sublist run (data_segments obs) /\
+    complete_run run /\
+    buf = concat (map seg_data run) /\ (length buf <= cap)%nat /\
+    exists i, Forall (fun s => seg_info s = i) run /\
+              fg_source fi = fi_source i /\ fg_broadcast fi = fi_broadcast i /\
+              (fi_broadcast i <> None -> length run = 1%nat).
+Proof.
+  intros cap obs fi buf Hin.
+  destruct (delivered_is_run_window cap obs fi buf Hin) as (pre & mid & post & run & E & He & Hrest).
+  exists run. split; [rewrite E; apply embed_sublist; exact He|exact Hrest].
+Qed.
+
+(* readable consequences of complete_run: FIR on the first segment only, FIN on the last only *)
+Lemma cont_shape : forall r pi ph, cont pi ph r ->
+  Forall (fun s => t_fir (seg_hdr s) = false) r /\
+  exists body lst, r = body ++ [lst] /\ t_fin (seg_hdr lst) = true /\
+                   Forall (fun s => t_fin (seg_hdr s) = false) body.
+Proof.
+  induction r as [|s r IH]; intros pi ph H; [destruct H|].
+  cbn [cont] in H. destruct H as (Hfir & _ & _ & Hrest).
+  destruct (t_fin (seg_hdr s)) eqn:Efin.
+  - subst r. split; [repeat constructor; exact Hfir|]. exists [], s. repeat split; auto.
+  - destruct (IH _ _ Hrest) as (H1 & body & lst & E & H2 & H3).
+    split; [constructor; assumption|]. exists (s :: body), lst.
+    split; [rewrite E; reflexivity|]. split; [exact H2|constructor; assumption].
+Qed.
+
+Lemma complete_run_shape run : complete_run run ->
+  exists first rest body lst,
+    run = first :: rest /\ run = body ++ [lst] /\
+    t_fir (seg_hdr first) = true /\ Forall (fun s => t_fir (seg_hdr s) = false) rest /\
+    t_fin (seg_hdr lst) = true /\ Forall (fun s => t_fin (seg_hdr s) = false) body.
+Proof.
+  destruct run as [|s r]; [intros []|]. cbn [complete_run]. intros (Hfir & Hrest).
+  destruct (t_fin (seg_hdr s)) eqn:Efin.
+  - subst r. exists s, [], [], s. repeat split; auto.
+  - destruct (cont_shape _ _ _ Hrest) as (H1 & body & lst & E & H2 & H3).
+    exists s, r, (s :: body), lst. split; [reflexivity|]. split; [rewrite E; reflexivity|].
+    repeat split; auto.
+Qed.
+
+(* ---------- 4. fragment ids --------------------------------------------------------------------- *)
+
+Fixpoint frag_ids (l : list tobs) : list N :=
+  match l with
+  | [] => []
+  | TFrag fi _ :: rest => fg_id fi :: frag_ids rest
+  | _ :: rest => frag_ids rest
+  end.
+
+Lemma ids_shift id n : id < 4294967296 ->
+  id :: map (fun k => ((id + 1) mod 4294967296 + N.of_nat k) mod 4294967296) (seq 0 n)
+  = map (fun k => (id + N.of_nat k) mod 4294967296) (seq 0 (S n)).
+Proof.
+  intro H. cbn [seq map]. f_equal.
+  - change (N.of_nat 0) with 0. rewrite N.add_0_r, N.mod_small by assumption. reflexivity.
+  - rewrite <- seq_shift, map_map. apply map_ext. intro k.
+    rewrite N.add_mod_idemp_l by discriminate. f_equal. lia.
+Qed.
+
+Lemma frame_ids_gen : forall obs a, is_complete a = false -> a_frame_id a < 4294967296 ->
+  frag_ids (treader_obs a obs) =
+  map (fun k => (a_frame_id a + N.of_nat k) mod 4294967296)
+      (seq 0 (length (frag_ids (treader_obs a obs)))).
+Proof.
+  induction obs as [|o obs IH]; intros a Hnc Hid; [reflexivity|].
+  destruct o as [b|i payload|e| |]; try reflexivity.
+  - cbn [treader_obs frag_ids]. apply IH; assumption.
+  - cbn [treader_obs].
+    destruct (fi_type i) eqn:Et.
+    2,3: cbn [frag_ids]; apply IH; assumption.
+    destruct payload as [|t d]; [apply IH; assumption|].
+    set (h := tp_from_u8 t).
+    pose proof (assemble_spec a i h d Hnc) as Hstep.
+    remember (assemble a i h d) as a' eqn:Ea'. clear Ea'.
+    assert (Hcomp : forall buf, a' = completed a i buf ->
+      frag_ids (match a_state a' with
+                | AComplete fi0 buf0 => TFrag fi0 buf0 :: treader_obs (with_state a' AEmpty) obs
+                | _ => treader_obs a' obs end) =
+      map (fun k => (a_frame_id a + N.of_nat k) mod 4294967296)
+          (seq 0 (length (frag_ids (match a_state a' with
+                | AComplete fi0 buf0 => TFrag fi0 buf0 :: treader_obs (with_state a' AEmpty) obs
+                | _ => treader_obs a' obs end))))).
+    { intros buf ->. cbn [completed a_state frag_ids fg_id length].
+      rewrite <- ids_shift by assumption. f_equal.
+      apply (IH (with_state (completed a i buf) AEmpty)); [reflexivity|].
+      cbn [with_state completed a_frame_id]. apply N.mod_lt. discriminate. }
+    assert (Hsame : is_complete a' = false -> a_frame_id a' = a_frame_id a ->
+      frag_ids (match a_state a' with
+                | AComplete fi0 buf0 => TFrag fi0 buf0 :: treader_obs (with_state a' AEmpty) obs
+                | _ => treader_obs a' obs end) =
+      map (fun k => (a_frame_id a + N.of_nat k) mod 4294967296)
+          (seq 0 (length (frag_ids (match a_state a' with
+                | AComplete fi0 buf0 => TFrag fi0 buf0 :: treader_obs (with_state a' AEmpty) obs
+                | _ => treader_obs a' obs end))))).
+    { intros Hnc' Hid'. rewrite <- Hid'. rewrite <- Hid' in Hid. pose proof Hnc' as Hnc2.
+      unfold is_complete in Hnc2.
+      destruct (a_state a') eqn:Est; try discriminate; apply IH; assumption. }
+    destruct Hstep as [Hst Hid' Hc|Heq Hign|Hfir Hfin Hb Heq Hlen
+                      |pi ph acc Hst Hfir Hfin Hb Hseq Hinfo Heq Hlen
+                      |Hfir Hfin Heq Hlen|pi ph acc Hst Hfir Hfin Hb Hseq Hinfo Heq Hlen].
+    + apply Hsame; [unfold is_complete; rewrite Hst; reflexivity|exact Hid'].
+    + subst a'. apply Hsame; auto.
+    + apply Hsame; subst a'; reflexivity.
+    + apply Hsame; subst a'; reflexivity.
+    + eapply Hcomp; eassumption.
+    + eapply Hcomp; eassumption.
+Qed.
+
+(* the ids of the fragments delivered since start-up are 0, 1, 2, ... (mod 2^32) in this order *)
+Theorem frame_ids_consecutive : forall cap obs,
+  frag_ids (treader_obs (assembler_init cap) obs) =
+  map (fun k => N.of_nat k mod 4294967296)
+      (seq 0 (length (frag_ids (treader_obs (assembler_init cap) obs)))).
+Proof.
+  intros cap obs. rewrite (frame_ids_gen obs (assembler_init cap) eq_refl) at 1 by reflexivity.
+  reflexivity.
+Qed.
+
+(* ---------- the transport reader on the segments of one fragment ----------------------------- *)
+
+Lemma assemble_first a info h c : fi_broadcast info = None -> t_fir h = true -> (length c <= a_cap a)%nat ->
+  assemble a info h c = if t_fin h then completed a info c else with_state a (ARunning info h c).
+Proof.
+  intros Hb Hfir Hlen. unfold assemble. rewrite Hb, Hfir. cbn [with_state a_state negb].
+  rewrite append_fits by exact Hlen. destruct (t_fin h); reflexivity.
+Qed.
+
+Lemma assemble_cont a info ph acc h c : fi_broadcast info = None -> a_state a = ARunning info ph acc ->
+  t_fir h = false -> t_seq h = seq_next (t_seq ph) -> (length (acc ++ c) <= a_cap a)%nat ->
+  assemble a info h c = if t_fin h then completed a info (acc ++ c) else with_state a (ARunning info h (acc ++ c)).
+Proof.
+  intros Hb Hst Hfir Hseq Hlen. unfold assemble. rewrite Hb, Hfir, Hst, Hseq, N.eqb_refl, info_eqb_refl.
+  cbn [negb]. apply append_fits. exact Hlen.
+Qed.
+
+Definition seg_obs (info : frame_info) (s : tp_header * list N) : lobs :=
+  LInfo info (tp_to_u8 (fst s) :: snd s).
+
+Definition popped (a : assembler) : assembler :=
+  {| a_state := AEmpty; a_frame_id := (a_frame_id a + 1) mod 4294967296; a_cap := a_cap a |}.
+
+Lemma treader_tail info : fi_broadcast info = None -> fi_type info = FData ->
+  forall cs a ph acc seq rest,
+  cs <> [] -> a_state a = ARunning info ph acc -> seq = seq_next (t_seq ph) -> seq < 64 ->
+  (length (acc ++ concat cs) <= a_cap a)%nat ->
+  treader_obs a (map (seg_obs info) (segs_of seq false cs) ++ rest) =
+  TFrag {| fg_id := a_frame_id a; fg_source := fi_source info; fg_broadcast := None |} (acc ++ concat cs)
+  :: treader_obs (popped a) rest.
+Proof.
+  intros Hb Ht. induction cs as [|c cs IH]; intros a ph acc seq rest Hne Hst Hseq Hlt Hlen; [congruence|].
+  cbn [segs_of map app]. unfold seg_obs at 1. cbn [fst snd treader_obs]. rewrite Ht.
+  rewrite tp_from_to by exact Hlt. cbn [concat] in Hlen. rewrite app_assoc in Hlen.
+  rewrite (assemble_cont a info ph acc) by
+    (try assumption; try reflexivity; rewrite app_length in Hlen; lia).
+  destruct cs as [|c2 cs].
+  - cbn [seg_hdr_of t_fin completed a_state segs_of map app concat]. rewrite app_nil_r, Hb. reflexivity.
+  - cbn [seg_hdr_of t_fin with_state a_state].
+    rewrite (IH (with_state a (ARunning info (seg_hdr_of seq false (c2 :: cs)) (acc ++ c)))
+                (seg_hdr_of seq false (c2 :: cs)) (acc ++ c) (seq_next seq) rest).
+    + cbn [concat]. rewrite <- app_assoc. reflexivity.
+    + discriminate.
+    + reflexivity.
+    + reflexivity.
+    + apply seq_next_bound. exact Hlt.
+    + exact Hlen.
+Qed.
+
+(* every fragment that was segmented is delivered, whatever the receiver was doing before; the
+   reader goes on with an empty assembler and the next frame id *)
+Theorem segments_delivered : forall a info seq0 fragment rest,
+  fi_broadcast info = None -> fi_type info = FData -> seq0 < 64 ->
+  fragment <> [] -> (length fragment <= a_cap a)%nat ->
+  treader_obs a (map (seg_obs info) (segs_of seq0 true (chunks 249 fragment)) ++ rest) =
+  TFrag {| fg_id := a_frame_id a; fg_source := fi_source info; fg_broadcast := None |} fragment
+  :: treader_obs (popped a) rest.
+Proof.
+  intros a info seq0 fragment rest Hb Ht Hlt Hne Hlen.
+  pose proof (chunks_concat 249 ltac:(lia) _ fragment (le_n _)) as Hcat.
+  pose proof (chunks_nonempty 249 fragment ltac:(lia) Hne) as Hcne.
+  destruct (chunks 249 fragment) as [|c cs]; [congruence|]. clear Hcne.
+  cbn [segs_of map app]. unfold seg_obs at 1. cbn [fst snd treader_obs]. rewrite Ht.
+  rewrite tp_from_to by exact Hlt. cbn [concat] in Hcat.
+  assert (Hlen' : (length (c ++ concat cs) <= a_cap a)%nat) by (rewrite Hcat; exact Hlen).
+  rewrite assemble_first by (try assumption; try reflexivity; rewrite app_length in Hlen'; lia).
+  destruct cs as [|c2 cs].
+  - cbn [seg_hdr_of t_fin completed a_state segs_of map app concat] in *. rewrite app_nil_r in Hcat.
+    rewrite Hb, Hcat. reflexivity.
+  - cbn [seg_hdr_of t_fin with_state a_state].
+    rewrite (treader_tail info Hb Ht (c2 :: cs) (with_state a (ARunning info (seg_hdr_of seq0 true (c2 :: cs)) c))
+                (seg_hdr_of seq0 true (c2 :: cs)) c (seq_next seq0) rest).
+    + rewrite Hcat. reflexivity.
+    + discriminate.
+    + reflexivity.
+    + reflexivity.
+    + apply seq_next_bound. exact Hlt.
+    + exact Hlen'.
+Qed.
+
+(* ---------- damage costs only the affected fragment ------------------------------------------ *)
+
+(* the assembler after the reader has worked through obs (popping every completed fragment) *)
+Fixpoint treader_after (a : assembler) (obs : list lobs) : assembler :=
+  match obs with
+  | [] => a
+  | LInfo i payload :: rest =>
+      match fi_type i, payload with
+      | FData, t :: data =>
+          let a' := assemble a i (tp_from_u8 t) data in
+          match a_state a' with
+          | AComplete _ _ => treader_after (with_state a' AEmpty) rest
+          | _ => treader_after a' rest
+          end
+      | _, _ => treader_after a rest
+      end
+  | LTx _ :: rest => treader_after a rest
+  | _ => a
+  end.
+
+Definition no_link_error (obs : list lobs) : Prop :=
+  Forall (fun o => match o with LErr _ | LOverflow | LStall => False | _ => True end) obs.
+
+Lemma treader_obs_app : forall junk a more, no_link_error junk ->
+  treader_obs a (junk ++ more) = treader_obs a junk ++ treader_obs (treader_after a junk) more.
+Proof.
+  induction junk as [|o junk IH]; intros a more Hok; [reflexivity|].
+  inversion Hok as [|? ? Ho Hok']; subst.
+  destruct o as [b|i payload|e| |]; try contradiction.
+  - cbn [app treader_obs treader_after]. rewrite IH by assumption. reflexivity.
+  - cbn [app treader_obs treader_after].
+    destruct (fi_type i); [|cbn [app]; rewrite IH by assumption; reflexivity..].
+    destruct payload as [|t d]; [apply IH; assumption|]. cbv zeta.
+    destruct (a_state (assemble a i (tp_from_u8 t) d)); try (apply IH; assumption).
+    cbn [app]. rewrite IH by assumption. reflexivity.
+Qed.
+
+Lemma append_cap a i h acc d : a_cap (append a i h acc d) = a_cap a.
+Proof. unfold append. destruct (a_cap a <? length (acc ++ d))%nat; [reflexivity|]. destruct (t_fin h); reflexivity. Qed.
+
+Lemma assemble_cap a i h d : a_cap (assemble a i h d) = a_cap a.
+Proof.
+  unfold assemble. destruct (t_fir h); cbn [andb negb].
+  - destruct (fi_broadcast i).
+    + destruct (t_fin h); [rewrite append_cap|]; reflexivity.
+    + cbn [with_state a_state]. rewrite append_cap. reflexivity.
+  - destruct (fi_broadcast i); [reflexivity|].
+    destruct (a_state a) as [|pi ph acc|fi0 b0]; try reflexivity.
+    + destruct (negb (t_seq h =? seq_next (t_seq ph))); [reflexivity|].
+      destruct (negb (info_eqb i pi)); [reflexivity|apply append_cap].
+    + rewrite append_cap. reflexivity.
+Qed.
+
+Lemma treader_after_cap : forall obs a, a_cap (treader_after a obs) = a_cap a.
+Proof.
+  induction obs as [|o obs IH]; intro a; [reflexivity|].
+  destruct o as [b|i payload|e| |]; try reflexivity.
+  - cbn [treader_after]. apply IH.
+  - cbn [treader_after].
+    destruct (fi_type i); try apply IH. destruct payload as [|t d]; [apply IH|]. cbv zeta.
+    destruct (a_state (assemble a i (tp_from_u8 t) d)); rewrite IH; apply assemble_cap.
+Qed.
+
+(* A damaged segment stream costs only the affected fragments: whatever data segments, link status
+   frames and replies came before (junk - any headers, sources, orders, lengths), the next fragment
+   that arrives as it was segmented is delivered intact. *)
+Theorem next_fragment_intact : forall a junk info seq0 fragment rest,
+  no_link_error junk ->
+  fi_broadcast info = None -> fi_type info = FData -> seq0 < 64 ->
+  fragment <> [] -> (length fragment <= a_cap a)%nat ->
+  treader_obs a (junk ++ map (seg_obs info) (segs_of seq0 true (chunks 249 fragment)) ++ rest) =
+  treader_obs a junk ++
+  TFrag {| fg_id := a_frame_id (treader_after a junk); fg_source := fi_source info; fg_broadcast := None |}
+        fragment
+  :: treader_obs (popped (treader_after a junk)) rest.
+Proof.
+  intros a junk info seq0 fragment rest Hok Hb Ht Hseq Hne Hlen.
+  rewrite treader_obs_app by exact Hok. f_equal.
+  apply segments_delivered; try assumption. rewrite treader_after_cap. exact Hlen.
+Qed.
+
+(* ---------- 5. composition with the link layer ----------------------------------------------- *)
+
+(* ---------- frames of bounded length ---------------------------------------------------------- *)
+
+Lemma format_frame_length h p : (length p <= 250)%nat ->
+  (1 <= length (format_frame h p) <= 292)%nat.
+Proof.
+  intro Hp. unfold format_frame, format_header, format_body. change (N.to_nat c_max_block_size) with 16%nat.
+  pose proof (chunks_wf 16 ltac:(lia) _ p (le_n _)) as Hwf.
+  pose proof (chunks_concat 16 ltac:(lia) _ p (le_n _)) as Hcat.
+  rewrite !app_length, format_body_length_aux by exact Hwf. rewrite (blocks_count _ Hwf), Hcat.
+  cbn [length header_fields].
+  assert ((length p + 15) / 16 < 17)%nat by (apply Nat.div_lt_upper_bound; lia). lia.
+Qed.
+
+Definition frame_wf (f : header * list N) : Prop :=
+  (exists ctrl dest src, header_ok ctrl dest src /\ fst f = mk_header ctrl dest src) /\
+  bytes_ok (snd f) /\ (length (snd f) <= 250)%nat.
+
+Definition fmt (f : header * list N) : list N := format_frame (fst f) (snd f).
+Definition oframe (f : header * list N) : robs := OFrame (fst f) (snd f).
+
+Lemma parse_frame mode f rest : frame_wf f ->
+  parse mode FindSync1 (fmt f ++ rest) = (FindSync1, rest, PFrame (fst f) (snd f)).
+Proof.
+  intros ((ctrl & dest & src & Hok & Eh) & Hb & Hl). unfold fmt. rewrite Eh.
+  pose proof (frame_round_trip ctrl dest src (snd f) rest Hok Hb Hl) as RT.
+  destruct mode; cbn [parse]; [exact RT|].
+  cbn [parse_discard]. rewrite RT. reflexivity.
+Qed.
+
+Lemma fmt_nonempty f : frame_wf f -> fmt f <> [].
+Proof.
+  intros (_ & _ & Hl) E. pose proof (format_frame_length (fst f) (snd f) Hl) as H.
+  unfold fmt in E. rewrite E in H. cbn in H. lia.
+Qed.
+
+Lemma feed_loop_frames cfg : forall fps fuel b, Forall frame_wf fps -> (length fps < fuel)%nat ->
+  exists rs', feed_loop fuel cfg []
+                {| r_begin := b; r_unread := concat (map fmt fps); r_pstate := FindSync1 |}
+              = (rs', map oframe fps, true).
+Proof.
+  induction fps as [|f fps IH]; intros fuel b Hwf Hfuel.
+  - destruct fuel as [|fuel]; [cbn in Hfuel; lia|].
+    cbn [map concat feed_loop read_frame step_parse r_unread].
+    unfold shift_if_full, r_end. cbn [r_begin r_unread r_pstate length Nat.add].
+    destruct (0 =? r_cap cfg)%nat; eexists; reflexivity.
+  - destruct fuel as [|fuel]; [cbn in Hfuel; lia|].
+    inversion Hwf as [|? ? Hf Hwf']; subst.
+    cbn [map concat feed_loop].
+    assert (Hrf : forall reads, read_frame cfg reads
+              {| r_begin := b; r_unread := fmt f ++ concat (map fmt fps); r_pstate := FindSync1 |}
+            = ({| r_begin := b + length (fmt f ++ concat (map fmt fps)) - length (concat (map fmt fps));
+                  r_unread := concat (map fmt fps); r_pstate := FindSync1 |}, reads, RFrame (fst f) (snd f))).
+    { intro reads. destruct reads; cbn [read_frame]; unfold step_parse; cbn [r_unread r_pstate r_mode];
+      (destruct (fmt f ++ concat (map fmt fps)) eqn:E;
+       [apply app_eq_nil in E; destruct E as [E _]; exfalso; exact (fmt_nonempty f Hf E)|]);
+      rewrite <- E; rewrite parse_frame by exact Hf; reflexivity. }
+    rewrite Hrf.
+    destruct (IH fuel (b + length (fmt f ++ concat (map fmt fps)) - length (concat (map fmt fps)))%nat Hwf'
+                ltac:(cbn [length] in Hfuel; lia)) as (rs' & E).
+    rewrite E. eexists. reflexivity.
+Qed.
+
+Lemma concat_fmt_length n : forall fps, Forall frame_wf fps -> (length fps <= n)%nat ->
+  (length (concat (map fmt fps)) <= n * 292)%nat /\ (length fps <= length (concat (map fmt fps)))%nat.
+Proof.
+  induction n as [|n IH]; intros fps Hwf Hn.
+  - destruct fps; [cbn; lia|cbn in Hn; lia].
+  - destruct fps as [|f fps]; [cbn; lia|]. inversion Hwf as [|? ? Hf Hwf']; subst.
+    cbn [map concat length] in *. rewrite app_length.
+    destruct Hf as (_ & _ & Hl). pose proof (format_frame_length (fst f) (snd f) Hl) as H. fold (fmt f) in H.
+    destruct (IH fps Hwf' ltac:(lia)). lia.
+Qed.
+
+(* the link reader on ONE physical read that holds a sequence of well-formed frames *)
+Theorem run_link_frames mode rm frag fps : fps <> [] -> Forall frame_wf fps ->
+  (length fps <= num_link_frames frag)%nat ->
+  run_link mode rm frag [concat (map fmt fps)] = map oframe fps.
+Proof.
+  intros Hne Hwf Hn. unfold run_link. cbn [run_feeds]. unfold feed. cbn [rstate_init r_unread length Nat.add].
+  set (cfg := {| r_mode := mode; r_read := rm; r_cap := read_buffer_size frag |}).
+  set (c := concat (map fmt fps)).
+  destruct (concat_fmt_length _ fps Hwf Hn) as [Hlen Hcount]. fold c in Hlen, Hcount.
+  assert (Hcap : (length c < r_cap cfg)%nat).
+  { cbn [cfg r_cap]. unfold read_buffer_size. change (N.to_nat c_max_link_frame_length) with 292%nat.
+    destruct (num_link_frames frag =? 0)%nat eqn:E; [apply Nat.eqb_eq in E; lia|lia]. }
+  assert (Hcne : c <> []).
+  { destruct fps as [|f fps]; [congruence|]. inversion Hwf as [|? ? Hf _]; subst.
+    unfold c. cbn [map concat]. intro E. apply app_eq_nil in E. destruct E as [E _].
+    exact (fmt_nonempty f Hf E). }
+  destruct (feed_loop_frames cfg fps (length c + 2) 0 Hwf ltac:(lia)) as (rs' & E).
+  fold c in E.
+  assert (Hfirst : forall fuel, feed_loop (S fuel) cfg [c] rstate_init =
+                                feed_loop (S fuel) cfg [] {| r_begin := 0; r_unread := c; r_pstate := FindSync1 |}).
+  { intro fuel. cbn [feed_loop].
+    assert (Hrf : read_frame cfg [c] rstate_init
+                  = read_frame cfg [] {| r_begin := 0; r_unread := c; r_pstate := FindSync1 |}).
+    { cbn [read_frame rstate_init step_parse r_unread r_pstate].
+      unfold shift_if_full, r_end. cbn [r_begin r_unread length Nat.add].
+      replace (0 =? r_cap cfg)%nat with false by (symmetry; apply Nat.eqb_neq; lia).
+      unfold r_writable, r_end. cbn [r_begin r_unread length Nat.add].
+      replace (r_cap cfg - 0 <? length c)%nat with false by (symmetry; apply Nat.ltb_ge; lia).
+      destruct c as [|x c'] eqn:Ec; [congruence|]. rewrite <- Ec.
+      unfold append_read. cbn [r_begin r_unread r_pstate app]. reflexivity. }
+    rewrite Hrf. reflexivity. }
+  replace (length c + 2)%nat with (S (length c + 1)) in * by lia.
+  rewrite Hfirst, E. rewrite app_nil_r. reflexivity.
+Qed.
+
+(* ---------- the link layer hands the segments up --------------------------------------------- *)
+
+Lemma address_from_endpoint x : x < 65520 -> address_from x = AEndpoint x.
+Proof.
+  intro H. unfold address_from.
+  change c_broadcast_confirm_optional with 65535. change c_broadcast_confirm_mandatory with 65534.
+  change c_broadcast_confirm_not_required with 65533. change c_self_address with 65532.
+  change c_reserved_start with 65520.
+  replace (x =? 65535) with false by (symmetry; apply N.eqb_neq; lia).
+  replace (x =? 65534) with false by (symmetry; apply N.eqb_neq; lia).
+  replace (x =? 65533) with false by (symmetry; apply N.eqb_neq; lia).
+  replace (x =? 65532) with false by (symmetry; apply N.eqb_neq; lia).
+  replace (65520 <=? x) with false by (symmetry; apply N.leb_gt; lia).
+  reflexivity.
+Qed.
+
+Definition data_ctrl (t : endpoint_type) : N := match t with Master => 196 | Outstation => 68 end.
+
+Lemma data_header_mk cfg dest :
+  data_header cfg dest = mk_header (data_ctrl (w_type cfg)) dest (w_addr cfg).
+Proof. unfold data_header, mk_header. destruct (w_type cfg); reflexivity. Qed.
+
+Lemma process_header_data lcfg wcfg ss :
+  w_type wcfg <> l_type lcfg -> w_addr wcfg < 65520 -> l_addr lcfg < 65520 ->
+  process_header lcfg ss (data_header wcfg (l_addr lcfg))
+  = (ss, Some (mk_info (w_addr wcfg) None FData), None).
+Proof.
+  intros Ht Hs Hd. unfold process_header, data_header. cbn [h_control h_src h_dest c_master c_func c_fcv].
+  rewrite !address_from_endpoint by assumption. rewrite N.eqb_refl.
+  destruct (w_type wcfg), (l_type lcfg); try congruence; reflexivity.
+Qed.
+
+Lemma layer_obs_data lcfg wcfg ss : w_type wcfg <> l_type lcfg -> w_addr wcfg < 65520 -> l_addr lcfg < 65520 ->
+  forall ps, layer_obs lcfg ss (map (fun p => OFrame (data_header wcfg (l_addr lcfg)) p) ps)
+           = map (fun p => LInfo (mk_info (w_addr wcfg) None FData) p) ps.
+Proof.
+  intros Ht Hs Hd. induction ps as [|p ps IH]; [reflexivity|].
+  cbn [map layer_obs]. rewrite process_header_data by assumption. cbn [app]. rewrite IH. reflexivity.
+Qed.
+
+Lemma chunks_count_bound bs : blocks_wf 249 bs -> (length bs * 249 < length (concat bs) + 249)%nat.
+Proof.
+  induction 1 as [|b Hne Hlen|b b' bs Hlen Hwf IH].
+  - cbn. lia.
+  - cbn [concat length]. rewrite app_nil_r. destruct b; [congruence|cbn [length]; lia].
+  - cbn [concat length] in *. rewrite app_length. lia.
+Qed.
+
+Lemma num_link_frames_bound frag : (frag <= num_link_frames frag * 249)%nat.
+Proof.
+  unfold num_link_frames. change (N.to_nat c_max_app_bytes_per_frame) with 249%nat.
+  pose proof (Nat.div_mod frag 249 ltac:(lia)) as H.
+  destruct (frag mod 249 =? 0)%nat eqn:E.
+  - apply Nat.eqb_eq in E. lia.
+  - pose proof (Nat.mod_upper_bound frag 249 ltac:(lia)). lia.
+Qed.
+
+(* One fragment written by a transport writer and received, in one physical read, by the transport
+   reader of the addressed station of the opposite type: exactly this fragment is delivered, from
+   the writer's address, and nothing else happens. *)
+Theorem write_read_round_trip : forall mode rm frag lcfg wcfg seq fragment,
+  w_type wcfg <> l_type lcfg -> w_addr wcfg < 65520 -> l_addr lcfg < 65520 ->
+  seq < 64 -> bytes_ok fragment -> fragment <> [] -> (length fragment <= frag)%nat ->
+  run_treader mode rm frag lcfg [concat (fst (write_fragment wcfg (l_addr lcfg) seq fragment))]
+  = [TFrag {| fg_id := 0; fg_source := w_addr wcfg; fg_broadcast := None |} fragment].
+Proof.
+  intros mode rm frag lcfg wcfg seq fragment Ht Hs Hd Hseq Hb Hne Hlen.
+  destruct (write_fragment_frames wcfg (l_addr lcfg) seq fragment) as (Hw & _ & Hcat). cbv zeta in *.
+  rewrite Hw. cbn [fst]. set (segs := segs_of seq true (chunks 249 fragment)) in *.
+  set (h := data_header wcfg (l_addr lcfg)).
+  set (fps := map (fun s : tp_header * list N => (h, tp_to_u8 (fst s) :: snd s)) segs).
+  assert (Hfmt : map (fun s : tp_header * list N => format_frame h (tp_to_u8 (fst s) :: snd s)) segs
+                 = map fmt fps).
+  { unfold fps. rewrite map_map. reflexivity. }
+  rewrite Hfmt.
+  pose proof (chunks_wf 249 ltac:(lia) _ fragment (le_n _)) as Hcwf.
+  pose proof (chunks_concat 249 ltac:(lia) _ fragment (le_n _)) as Hccat.
+  pose proof (chunks_length_le 249 fragment ltac:(lia)) as Hcl.
+  pose proof (chunks_bytes 249 fragment ltac:(lia) Hb) as Hcb.
+  pose proof (segs_of_seq_bound (chunks 249 fragment) seq true Hseq) as Hsb. fold segs in Hsb.
+  pose proof (segs_of_payloads (chunks 249 fragment) seq true) as Hsp. fold segs in Hsp.
+  assert (Hwf : Forall frame_wf fps).
+  { unfold fps. rewrite Forall_map. rewrite <- Hsp in Hcl, Hcb. rewrite Forall_map in Hcl, Hcb.
+    rewrite Forall_forall in *. intros s Hin. unfold frame_wf. cbn [fst snd]. split; [|split].
+    - exists (data_ctrl (w_type wcfg)), (l_addr lcfg), (w_addr wcfg). split; [|apply data_header_mk].
+      unfold header_ok. destruct (w_type wcfg); cbn [data_ctrl]; lia.
+    - constructor; [apply tp_to_u8_byte, Hsb, Hin|apply Hcb, Hin].
+    - cbn [length]. specialize (Hcl s Hin). cbv beta in Hcl. lia. }
+  assert (Hcount : (length fps <= num_link_frames frag)%nat).
+  { unfold fps. rewrite map_length. unfold segs. rewrite segs_of_length.
+    pose proof (chunks_count_bound _ Hcwf) as H1. rewrite Hccat in H1.
+    pose proof (num_link_frames_bound frag) as H2. nia. }
+  assert (Hfne : fps <> []).
+  { unfold fps, segs. pose proof (chunks_nonempty 249 fragment ltac:(lia) Hne) as H.
+    destruct (chunks 249 fragment); [congruence|discriminate]. }
+  unfold run_treader, run_layer. rewrite (run_link_frames mode rm frag fps Hfne Hwf Hcount).
+  assert (Hobs : map oframe fps = map (fun p => OFrame h p) (map (fun s : tp_header * list N => tp_to_u8 (fst s) :: snd s) segs)).
+  { unfold fps. rewrite !map_map. reflexivity. }
+  rewrite Hobs. unfold h. rewrite layer_obs_data by assumption. rewrite map_map.
+  pose proof (segments_delivered (assembler_init frag) (mk_info (w_addr wcfg) None FData) seq fragment []
+                eq_refl eq_refl Hseq Hne Hlen) as Hdel.
+  rewrite app_nil_r in Hdel. fold segs in Hdel. unfold seg_obs in Hdel. rewrite Hdel. reflexivity.
+Qed.
